@@ -13,6 +13,7 @@ import (
 	"encoding/hex"
 	"encoding/pem"
 	"fmt"
+	"net"
 	"math/big"
 	"os"
 	"runtime"
@@ -157,7 +158,25 @@ func setup() {
 	}
 	// certificates, CSRs, CRLs
 	certDER := p.SrvSign.DER
-	add("ParseCertificate", true, [][]byte{certDER, p.RSASrv.DER, p.SM2Root.DER}, func(b []byte) { gx.ParseCertificate(b) })
+	// a certificate that carries every extension the library's template can express (so that every extension parser has
+	// a valid starting point): key usages, basic constraints with a path length, key identifiers, authority information
+	// access (OCSP and CA issuers), subject alternative names of three forms, critical name constraints, CRL distribution
+	// points, policies, an unknown extended key usage and a private extension
+	richTpl := &gx.Certificate{SerialNumber: big.NewInt(77), Subject: pkix.Name{CommonName: "rich", Organization: []string{"verif"}, Country: []string{"CN"}},
+		NotBefore: tlsx.Now.Add(-time.Hour), NotAfter: tlsx.Now.Add(time.Hour), SignatureAlgorithm: gx.SM2WithSM3,
+		KeyUsage: gx.KeyUsageDigitalSignature | gx.KeyUsageCertSign, ExtKeyUsage: []gx.ExtKeyUsage{gx.ExtKeyUsageServerAuth, gx.ExtKeyUsageClientAuth},
+		UnknownExtKeyUsage: []asn1.ObjectIdentifier{{1, 2, 3, 4, 5}}, BasicConstraintsValid: true, IsCA: true, MaxPathLen: 1,
+		SubjectKeyId: []byte{1, 2, 3, 4}, OCSPServer: []string{"http://ocsp.test/"}, IssuingCertificateURL: []string{"http://ca.test/ca.cer"},
+		DNSNames: []string{"a.test", "*.b.test"}, EmailAddresses: []string{"x@a.test"}, IPAddresses: []net.IP{net.IPv4(10, 0, 0, 1).To4(), net.ParseIP("2001:db8::1")},
+		PermittedDNSDomainsCritical: true, PermittedDNSDomains: []string{"a.test", ".b.test"},
+		CRLDistributionPoints: []string{"http://crl.test/a.crl", "http://crl2.test/b.crl"}, PolicyIdentifiers: []asn1.ObjectIdentifier{{2, 5, 29, 32, 0}, {1, 2, 156, 1}},
+		ExtraExtensions:       []pkix.Extension{{Id: asn1.ObjectIdentifier{1, 2, 3, 4, 5, 6}, Value: []byte{5, 0}}}}
+	richDER, err := gx.CreateCertificate(richTpl, p.SM2Root.Cert, &priv.PublicKey, p.SM2Root.Key)
+	must(err)
+	if rc, err := gx.ParseCertificate(richDER); err != nil || len(rc.CRLDistributionPoints) != 2 || len(rc.OCSPServer) != 1 {
+		panic(fmt.Sprint("harness: the rich certificate does not parse back: ", err))
+	}
+	add("ParseCertificate", true, [][]byte{richDER, certDER, p.RSASrv.DER, p.SM2Root.DER}, func(b []byte) { gx.ParseCertificate(b) })
 	add("ParseCertificates", true, [][]byte{append(append([]byte{}, certDER...), p.SrvEnc.DER...)}, func(b []byte) { gx.ParseCertificates(b) })
 	csr, err := gx.CreateCertificateRequest(rand.Reader, &gx.CertificateRequest{Subject: pkix.Name{CommonName: "csr"}, DNSNames: []string{"a.b"}, SignatureAlgorithm: gx.SM2WithSM3}, priv)
 	must(err)
@@ -382,7 +401,7 @@ func TestMain(m *testing.M) {
 			R.Require(d.name+"/len_rewrite", d.name+"/tag_swap")
 		}
 	}
-	R.Require("huge_length_sweep", "p12_attr_decoded", "p12_attr_odd", "ber_depth>=1000", "vec_len_sweep", "hello_ext_sweep", "der_value_sweep", "parameter_size_sweep")
+	R.Require("huge_length_sweep", "p12_attr_decoded", "p12_attr_odd", "ber_depth>=1000", "vec_len_sweep", "hello_ext_sweep", "der_value_sweep", "parameter_size_sweep", "choice_tag_sweep")
 	R.Assume("inputs that declare more than 4096 key-stretching iterations are skipped and counted as discarded (the statement exempts format-carried stretching)")
 	hx.Main(m, R)
 }
@@ -899,4 +918,39 @@ func insertAfter(der []byte, tl rder.TLV, extra []byte) ([]byte, bool) {
 	body := append(append(append([]byte(nil), der[ps:cut]...), extra...), der[cut:pe]...)
 	p := *parent
 	return gen.DERReplaceWhere(der, func(x rder.TLV, _ []byte) bool { return x.Start == p.Start && x.Tag == p.Tag && x.Len == p.Len }, p.Tag, func([]byte) []byte { return body })
+}
+
+// CHOICE alternatives: every context-tagged element (GeneralName forms, the [0]/[1]/[2] members of distribution points,
+// authority key identifiers, explicit wrappers ...) of every ASN.1 seed is given each of the other context tag numbers
+// 0..8, primitive and constructed. A parser that walks a list of alternatives must get past the ones it does not use.
+func TestC18_ChoiceTags(t *testing.T) {
+	var n int64
+	for i := range decoders {
+		d := &decoders[i]
+		if !d.asn1 {
+			continue
+		}
+		for si, seed := range d.seeds {
+			if len(seed) > 4096 || (si > 0 && !hx.Thorough() && len(seed) > 1200) {
+				continue
+			}
+			for _, tl := range rder.Walk(seed) {
+				if tl.Tag&0xc0 != 0x80 || tl.Tag&0x1f > 8 {
+					continue
+				}
+				for num := byte(0); num <= 8; num++ {
+					for _, form := range []byte{0x80, 0xa0} {
+						if nt := form | num; nt != tl.Tag {
+							m := append([]byte(nil), seed...)
+							m[tl.Start] = nt
+							runOne(t, d, m, "choice_tag")
+							n++
+						}
+					}
+				}
+			}
+		}
+		R.Case(true, hx.HashKey("choicetag", d.name), "choice_tag_sweep")
+	}
+	R.Subspace("every context-tagged TLV of the ASN.1 seeds x context tags [0]..[8], primitive and constructed", n, true)
 }
